@@ -591,6 +591,24 @@ func (g *Gen) retyped(ty *Ty, d int) *X {
 	if g.pick(4, "rtun") == 0 {
 		return Un("-", g.retyped(ty, d-1), ty)
 	}
+	if g.pick(5, "rtmod") == 0 {
+		// the re-typing stops at % and ** (their literals stay ints): operands of the re-typed arithmetic that
+		// are themselves arithmetic on plain int literals
+		rest := g.retyped(ty, d-1)
+		var inner *X
+		// (`**` makes the argument a float64 also where no environment is declared; the untyped variants then succeed
+		// and disagree with the typed ones about `/` on re-typed literals - open finding F19)
+		if ty.K == KF64 && !g.Excl["arg-retype"] && g.coin("rtpow") {
+			inner = Bin("**", LitInt(g.pick(4, "rtpa")), LitInt(g.pick(3, "rtpb")), TF64)
+		} else {
+			inner = Bin("%", LitInt(g.pick(9, "rtma")), LitInt(1+g.pick(5, "rtmb")), TInt)
+		}
+		op := []string{"+", "-", "*"}[g.pick(3, "rtmop")]
+		if g.coin("rtmside") {
+			return Bin(op, inner, rest, ty)
+		}
+		return Bin(op, rest, inner, ty)
+	}
 	ops := []string{"+", "-", "*", "/"}
 	if g.Excl["fold-retyped-div"] {
 		ops = ops[:3]
@@ -713,6 +731,41 @@ func (g *Gen) boolean(d int) *X {
 		{2, func() *X { return g.seqEquality(d) }},
 		{1, func() *X { return g.elemOf(TBool, d) }},
 		{1, func() *X { return g.fieldOf(TBool, d) }},
+		{2, func() *X {
+			// a conditional whose branches are of two DIFFERENT statically known integer kinds, compared with an
+			// int: its value is of one kind or the other, never converted
+			ks := []Kind{KUint8, KInt8, KUint16, KInt64, KUint, KInt32, KInt}
+			k1, k2 := ks[g.pick(len(ks), "mck1")], ks[g.pick(len(ks), "mck2")]
+			saved, savedDyn := g.ConstBias, g.Dyn
+			g.ConstBias = 0
+			if g.Excl["in-array-dyn-arith"] {
+				g.Dyn = false // an integer branch next to a dynamically typed one is typed int: open finding F26
+			}
+			a, b := g.Leaf(Num(k1)), g.Leaf(Num(k2))
+			g.ConstBias, g.Dyn = saved, savedDyn
+			if g.coin("mclit") && !(g.AllDynamic && g.Excl["in-array-dyn-arith"]) {
+				// (without a declared environment the other branch is of unknown type and the checker types the
+				// conditional by its literal branch: the region of open finding F26)
+				b = LitInt(g.pick(3, "mcl"))
+			}
+			if g.coin("mcswap") {
+				a, b = b, a
+			}
+			if g.AllDynamic && g.Excl["in-array-dyn-arith"] {
+				for _, br := range []**X{&a, &b} {
+					if (*br).K == "lit" {
+						*br = Var("I", TInt)
+					}
+				}
+			}
+			c := Cond(g.Leaf(TBool), a, b, a.Ty)
+			other := []*X{LitInt(g.pick(3, "mco")), Var("I", TInt), Var("J", TInt)}[g.pick(3, "mcother")]
+			op := []string{"==", "!=", "<", ">="}[g.pick(4, "mcop")]
+			if g.coin("mcside") {
+				return Bin(op, other, c, TBool)
+			}
+			return Bin(op, c, other, TBool)
+		}},
 	}
 	if g.Calls {
 		ps = append(ps, prod{4, func() *X { x := Call("LB", TBool, g.boolean(d-1)); x.Tag = g.tag(); return x }})
